@@ -46,6 +46,11 @@ class Checker:
         ncase = 0
         for f in case_split([got, want], facts):
             ncase += 1
+            if "apre" in tu.meta[fn]["params"] and "pre" in tu.meta[fn]["params"]:
+                # conditional pre-state invariants whose hypothesis this case decides
+                f = add_invariants(tu, fn, f)
+                if f.infeasible():
+                    continue
             g, w = simplify(got, f), simplify(want, f)
             d = g - w
             if d.is_const():
